@@ -33,6 +33,32 @@ chk("C18", "proof",
     "Coq proof over translated tables + hand model; correspondence by vm_compute on enumerated CLI scenarios",
     "DESIGN.md section 4 C18")
 
+chk("C07", "proof",
+    "Proved (Coq, closed under the global context) over Gen/FailureLt.v, which is regenerated from plugin_scan_failure.py::__lt__, "
+    "plugin_scan_context.py (collection/sorted()/clear shape) and rule_plugin.py (position arithmetic) on every run: the comparison IS the "
+    "documented order (line, column, rule id) and a strict weak order; for every list of collected failures and every suppression predicate the "
+    "printed list is sorted, is a permutation of the unsuppressed collected failures (each printed exactly as often as reported) and does not "
+    "depend on the order in which rules reported; report positions follow token positions. Tied to the code by the translator plus a "
+    "correspondence run that pushes random report scripts through the real engine. NOT proved: absence of rule crashes and range/uniqueness "
+    "of what the 46 rules report for every document - that part is exploration (enumerated document spaces x default/all/each rule alone).",
+    "Trusted: Coq kernel + vm_compute, translator failure_lt.py/pyexpr.py, scripted reporter plug-in, API driver. Columns are judged against "
+    "the tab-expanded line. Modelled rather than verified: the rules themselves (explored only).",
+    "Coq proof over translated comparison + sort model; correspondence by vm_compute; enumeration of documents for rule behaviour",
+    "DESIGN.md section 4 C07")
+
+chk("C19", "proof",
+    "Proved (Coq, closed under the global context) for every directory tree, flag setting and argument list, over the hand model "
+    "Model/Discover.v (determine_files_to_scan with os.path/os.walk/glob semantics): selected paths strictly sorted without repetition; "
+    "exactly the union of what each argument designates; invariant under permutation of the arguments; error iff some argument alone fails "
+    "(missing, ineligible named file, glob without match) and then nothing is selected; every selected path is an existing file with an "
+    "eligible extension. Two clauses of the property are REFUTED on the faithful model with vm_compute witnesses (one file under two "
+    "spellings is selected twice; selecting no file ends in SUCCESS) and are listed as known findings. The model is tied to the code by "
+    "evaluating it in Coq on every --list-files run of an enumerated space (5 trees x all single and paired arguments x flags).",
+    "Trusted: Coq kernel + vm_compute, the hand model of os.path/os.walk/glob (checked only by correspondence), the in-process CLI driver, "
+    "the independent Python reference used to judge violations. Outside the model: symlinks, '..', absolute paths, '[' inside glob patterns.",
+    "Coq proof over hand model; correspondence by vm_compute on enumerated trees x argument lists",
+    "DESIGN.md section 4 C19")
+
 NOT_YET = {}
 
 
